@@ -20,6 +20,7 @@ type WriterSpec struct {
 	Page  int    `json:"page"`
 	Codec string `json:"codec"`
 	Ops   []Op   `json:"ops"`
+	Large bool   `json:"-"` // drawn from the large class (informative, not part of the case)
 }
 
 // TaskSpec is one instance of a C13 run.
